@@ -36,18 +36,19 @@ type verifStep struct {
 }
 
 type verifScenario struct {
-	Proto       string      `json:"proto"`
-	UDPSize     int         `json:"udp_size"`
-	Workers     int         `json:"workers"`
-	GoMaxProcs  int         `json:"gomaxprocs"`
-	CacheFile   string      `json:"cache_file"`
-	ElementsDir string      `json:"elements_dir"`
-	MirrorAddr  string      `json:"mirror_addr"`
-	MirrorPort  int         `json:"mirror_port"`
-	MirrorWait  string      `json:"mirror_wait_file"` // the driver stays alive until this file exists (or 15 s)
-	TypeFilter  []uint32    `json:"type_filter"`
-	Verbose     bool        `json:"verbose"`
-	Steps       []verifStep `json:"steps"`
+	Proto        string      `json:"proto"`
+	UDPSize      int         `json:"udp_size"`
+	OtherUDPSize int         `json:"other_udp_size"` // if set, the max-udp-size of the protocols the scenario does not drive
+	Workers      int         `json:"workers"`
+	GoMaxProcs   int         `json:"gomaxprocs"`
+	CacheFile    string      `json:"cache_file"`
+	ElementsDir  string      `json:"elements_dir"`
+	MirrorAddr   string      `json:"mirror_addr"`
+	MirrorPort   int         `json:"mirror_port"`
+	MirrorWait   string      `json:"mirror_wait_file"` // the driver stays alive until this file exists (or 15 s)
+	TypeFilter   []uint32    `json:"type_filter"`
+	Verbose      bool        `json:"verbose"`
+	Steps        []verifStep `json:"steps"`
 }
 
 type verifEvent struct {
@@ -109,6 +110,13 @@ func TestVerifDriver(t *testing.T) {
 	opts.DynWorkers = false
 	if sc.UDPSize > 0 {
 		opts.IPFIXUDPSize, opts.SFlowUDPSize, opts.NetflowV5UDPSize, opts.NetflowV9UDPSize = sc.UDPSize, sc.UDPSize, sc.UDPSize, sc.UDPSize
+	}
+	if sc.OtherUDPSize > 0 {
+		for proto, p := range map[string]*int{"ipfix": &opts.IPFIXUDPSize, "sflow": &opts.SFlowUDPSize, "nf5": &opts.NetflowV5UDPSize, "nf9": &opts.NetflowV9UDPSize} {
+			if proto != sc.Proto {
+				*p = sc.OtherUDPSize
+			}
+		}
 	}
 	opts.SFlowTypeFilter = sc.TypeFilter
 	opts.IPFIXMirrorAddr, opts.IPFIXMirrorPort = sc.MirrorAddr, sc.MirrorPort
